@@ -638,6 +638,24 @@ def d8(cx: Cx, ob: Ob) -> None:
                 strict_call = nm.endswith("_strict") or (is_const(dict(c[3]).get("strict"), True) and nm in ("standardize_prefix", "standardize_curie", "standardize_uri", "compress", "expand", "parse_curie", "parse_uri", "parse", "expand_pair", "expand_all", "expand_pair_all", "compress_or_standardize", "expand_or_standardize"))
                 if not strict_call or ev.cov or (ev.line, nm) in seen:
                     continue
+                # only names that come STRAIGHT from the user's mapping: one taken from a local collection may have
+                # been tested for membership when it was put there
+                mp = {("param", q.name) for q in fn.params[1:]}
+                direct = False
+                for a_ in c[2][:1]:
+                    if a_ in mp:
+                        direct = True
+                    for ev2, ctx2 in s.walk():
+                        if ev2.kind == "loop" and any(y == a_ for y in subterms(ev2.a) if isinstance(ev2.a, tuple)) or (ev2.kind == "loop" and ev2.a == a_):
+                            if any(y in mp for y in subterms(ev2.b)):
+                                direct = True
+                    for t2, _, _ in s.all_terms():
+                        for x2 in subterms(t2):
+                            if op(x2) == "comp" and any(c is y for y in subterms(x2[2])) or (op(x2) == "comp" and any(y == c for y in subterms(x2[2]))):
+                                if any(any(y in mp for y in subterms(src)) for _, src, _ in x2[3]):
+                                    direct = True
+                if not direct:
+                    continue
                 seen.add((ev.line, nm))
                 ob.violate(
                     fn.qualname,
